@@ -1,4 +1,87 @@
+(* C15 - NIP-42 authentication succeeds only for a fresh, correctly signed answer.
+   Property theorems only; proofs are in C15/Proofs.v.  The tests of check_auth_event
+   (auth_kind_bad, auth_since, auth_is_too_old/new, auth_url_bad, auth_tags_missing) and
+   parse_valid_urls are regenerated from /repo on every run (Gen/Auth.v); Event.verify() is
+   an oracle carried by the event (a_verify); storage.get_auth_roles and the configured
+   relay_urls are Section variables of the model. *)
 From NR Require Import Lib.Base Lib.PyRt C15.Rt Gen.Auth C15.Model C15.Spec C15.Proofs.
-Theorem C15_placeholder : auth_kind = 22242%Z.
-Proof. exact placeholder. Qed.
-Print Assumptions C15_placeholder.
+Open Scope Z_scope.
+
+(* token => verified /\ kind 22242 /\ |now - created| < 600 /\ a relay tag is present and every
+   relay tag names a configured URL as a list element /\ a challenge tag is present and every
+   challenge tag equals this connection's challenge /\ token pubkey = event pubkey *)
+Theorem C15_auth_sound : forall roles_of configured now ch p t,
+  authenticate roles_of configured now ch p = Authenticated t ->
+  exists ev, p = PEvent ev /\ valid_answer now (urls_as_list configured) ch ev /\
+             t_pubkey t = a_pubkey ev /\ t_roles t = roles_of (a_pubkey ev).
+Proof. exact auth_sound. Qed.
+Print Assumptions C15_auth_sound.
+
+(* the statement is not vacuous: every valid answer (whose tags are all non-empty, as
+   Event.verify() itself requires) does authenticate *)
+Theorem C15_auth_complete : forall roles_of configured now ch ev,
+  valid_answer now (urls_as_list configured) ch ev -> Forall (fun t => t <> []) (a_tags ev) ->
+  exists t, authenticate roles_of configured now ch (PEvent ev) = Authenticated t /\ t_pubkey t = a_pubkey ev.
+Proof. exact auth_complete. Qed.
+Print Assumptions C15_auth_complete.
+
+(* any other AUTH leaves the connection's identity unchanged (AUTH branch of web.start_client:
+   AuthenticationError -> NOTICE, any other exception -> close 1013; no assignment either way) *)
+Theorem C15_failed_auth_keeps_token : forall roles_of configured enabled ch c m,
+  (forall t, authenticate roles_of configured (fst m) ch (snd m) <> Authenticated t) ->
+  c_token (handle_auth roles_of configured enabled ch c m) = c_token c.
+Proof. exact failed_auth_keeps_token. Qed.
+Print Assumptions C15_failed_auth_keeps_token.
+
+(* for all orders of AUTH attempts on a connection: an identity it holds afterwards was proved
+   by a valid answer among the messages received on this connection *)
+Theorem C15_token_from_valid_answer : forall roles_of configured enabled ch ms t,
+  c_token (run_auths roles_of configured enabled ch ms) = Some t ->
+  exists now ev, In (now, PEvent ev) ms /\ valid_answer now (urls_as_list configured) ch ev /\ t_pubkey t = a_pubkey ev.
+Proof.
+  intros roles_of configured enabled ch ms t H.
+  destruct (token_from_valid_answer roles_of configured enabled ch ms conn0 t H) as [E|E]; [discriminate | exact E].
+Qed.
+Print Assumptions C15_token_from_valid_answer.
+
+(* an answer captured on one connection is useless on a connection with a different challenge *)
+Theorem C15_cross_connection_replay : forall roles_of configured now ch1 ch2 p t,
+  ch1 <> ch2 ->
+  authenticate roles_of configured now ch1 p = Authenticated t ->
+  authenticate roles_of configured now ch2 p = AuthRefused EWrongChallenge.
+Proof. exact cross_connection_replay. Qed.
+Print Assumptions C15_cross_connection_replay.
+
+(* the boolean evaluated on the implementation's observations (c15.holds, c15.conn_holds) is the statement *)
+Theorem C15_oracle_is_statement : forall now l ch ev, valid_answerb now l ch ev = true <-> valid_answer now l ch ev.
+Proof. exact valid_answerb_spec. Qed.
+Print Assumptions C15_oracle_is_statement.
+
+(* F19 (fixed in /repo): with relay_urls left as the default str, `tag[1] not in self.valid_urls`
+   is a substring test and ["relay","ws"] passes check_auth_event *)
+Theorem C15_str_urls_refuted :
+  check_auth_event 1000 default_relay_urls (pys "c") f19_event = COk /\
+  ~ valid_answer 1000 (urls_as_list default_relay_urls) (pys "c") f19_event.
+Proof. exact f19_str_urls_refuted. Qed.
+Print Assumptions C15_str_urls_refuted.
+
+(* ---------------------------------------------------------------- non-vacuity *)
+Definition ex_ok : aevent :=
+  {| a_pubkey := pys "k"; a_kind := 22242; a_created := 1599;
+     a_tags := [[pys "p"; pys "x"]; [pys "relay"; pys "ws://localhost:6969"]; [pys "challenge"; pys "c"; pys "extra"]];
+     a_verify := VTrue |}.
+Example C15_ex_valid :
+  authenticate (fun _ => [97%N]) default_relay_urls 1000 (pys "c") (PEvent ex_ok)
+  = Authenticated {| t_pubkey := pys "k"; t_roles := [97%N]; t_now := 1000 |} /\
+  valid_answerb 1000 (urls_as_list default_relay_urls) (pys "c") ex_ok = true.
+Proof. vm_compute. split; reflexivity. Qed.
+(* one second later the same answer is too new by the strict bound; on another connection it is a wrong challenge;
+   a failed attempt after a successful one keeps the first identity; a crash closes *)
+Example C15_ex_neighbours :
+  authenticate (fun _ => []) default_relay_urls 999 (pys "c") (PEvent ex_ok) = AuthRefused ETooNew /\
+  authenticate (fun _ => []) default_relay_urls 1000 (pys "d") (PEvent ex_ok) = AuthRefused EWrongChallenge /\
+  option_map t_pubkey (c_token (run_auths (fun _ => []) default_relay_urls true (pys "c")
+      [(1000, PEvent ex_ok); (999, PEvent ex_ok); (1000, PNotDict)])) = Some (pys "k") /\
+  c_open (run_auths (fun _ => []) default_relay_urls true (pys "c") [(1000, PBadCtor (pys "TypeError")); (1000, PEvent ex_ok)]) = false /\
+  c_token (run_auths (fun _ => []) default_relay_urls true (pys "c") [(1000, PBadCtor (pys "TypeError")); (1000, PEvent ex_ok)]) = None.
+Proof. vm_compute. repeat split. Qed.
